@@ -80,19 +80,19 @@ def register_all(reg):
     THRX_NOTE = ("Real threads under a cooperative scheduler (one baton), virtual time; scheduling points at synchronisation operations only (thread start/exit/join, Event, queue put/get, sleep, timers); "
                  "deviation-bounded, not all interleavings; in-process transport only.")
     reg("C21", "thrx", "model_checking", "stateless deviation-bounded systematic scheduling of the real threaded runtime (cooperative scheduler, virtual time) + callback/thread monitor",
-        "Every schedule with <=1 (thorough <=2 on 2-variable instances) deviation from the fair default schedule of the real orchestrated run (DPOP mappings of C22 + A-DSA with periodic actions) is executed; a monitor checks every start / on_message / pause / periodic action / discovery callback for the executing thread and for overlap per agent.",
+        "Every schedule with <=1 (thorough <=2 on 2-variable instances) deviation from the fair default schedule of the real orchestrated run (DPOP mappings of C22, A-DSA with periodic actions, a run ended by the timeout timer, resilient runs with replication computations), plus the default execution (thorough: and every single deviation) of four other default schedules, is executed; a monitor checks every start / on_message / pause / periodic action / discovery callback for the executing thread and for overlap per agent.",
         THRX_NOTE, "DESIGN.md 3 C21")
     reg("C22", "thrx", "model_checking", "stateless deviation-bounded systematic scheduling of the real threaded runtime (cooperative scheduler, virtual time) x instance/distribution enumeration",
-        "For every (small DCOP x agent set x distribution incl. oneagent/adhoc/gh_cgdp outputs) the real run_local_thread_dcop / deploy_computations / run(timeout) sequence is executed under the fair default schedule and every schedule with <=1 deviation (thorough: <=2 on 2-variable instances); each execution must end OK before the timeout on a complete, brute-force-optimal assignment whose reported cost/violation match the reference accounting.",
+        "For every (small DCOP x agent set x distribution incl. oneagent/adhoc/gh_cgdp outputs) the real run_local_thread_dcop / deploy_computations / run(timeout) sequence is executed under the fair default schedule and every schedule with <=1 deviation (thorough: <=2 on 2-variable instances), plus the default execution (thorough: and every single deviation) of other default schedules (most-recently-run first, by thread name, a slow orchestrator / agent thread); each execution must end OK before the timeout on a complete, brute-force-optimal assignment whose reported cost/violation match the reference accounting.",
         THRX_NOTE, "DESIGN.md 3 C22")
 
     reg("C18", "thrx", "model_checking", "stateless deviation-bounded systematic scheduling of real threads (cooperative scheduler) with line-level scheduling points in the messaging code (sys.settrace)",
         "A real Agent loop thread, Messaging and InProcessCommunicationLayer with concurrent poster threads (local/remote routes, priority mixes, registration after the posts, post right before clean_shutdown): the default schedule and every schedule with <=2 (small variants) / <=1 (large variants) deviations (thorough: 3 / 2) is executed, preemption possible at every line of post_msg/next_msg/_on_computation_registration/_run/clean_shutdown; exactly-once, per-sender FIFO, priority and shutdown-drain oracles on every execution.",
         THRX_NOTE + " Line-level points only inside the traced messaging functions.", "DESIGN.md 3 C18")
 
-    reg("C27", "thrx", "fault_enumeration", "fault enumeration (every removed-agent subset) on the real threaded runtime under a cooperative scheduler, with single schedule / random-answer deviations in the repair window",
-        "For every small resilient deployment and every subset of <=k removed agents the real replication -> removal event -> repair pipeline is executed under the fair default schedule (deep cases: plus every single schedule deviation and every single random-answer deviation inside the repair window); one virtual second after the orchestrator reports the repair, directory and agents must agree that every computation runs on exactly one surviving agent that held its replica.",
-        THRX_NOTE + " One removal event per run; ample capacities; A-DSA (thorough also MGM) as non-terminating algorithm.", "DESIGN.md 3 C27")
+    reg("C27", "thrx", "fault_enumeration", "fault enumeration (every removed-agent subset, and two successive removal events) on the real threaded runtime under a cooperative scheduler, with single schedule / random-answer deviations in the repair window",
+        "For every small resilient deployment and every subset of <=k removed agents (k=1 deployments: also every ordered pair of successive single removals; quick: a1 first) the real replication -> removal event(s) -> repair pipeline is executed under the fair default schedule (deep cases: plus every single schedule deviation and every single random-answer deviation inside the repair window); one virtual second after the orchestrator reports the last repair, directory and agents must agree that every computation runs on exactly one surviving agent that held its replica.",
+        THRX_NOTE + " At most two removal events per run, each within k; ample capacities; A-DSA (thorough also MGM) as non-terminating algorithm.", "DESIGN.md 3 C27")
 
     reg("C02", "netx", "model_checking", "explicit-state search of the real SyncBB computations over a virtual FIFO network (all start orders and delivery interleavings, state caching) x bounded-exhaustive instance family",
         "For every binary DCOP of the small-scope family the real ordered graph is built and every reachable state of the real SyncBB computations is visited; every maximal path must end with all computations finished and the held values forming a brute-force-optimal assignment.",
@@ -116,7 +116,7 @@ def register_all(reg):
 
     reg("C20", "netx", "model_checking", "explicit-state search over operation sequences interleaved with all delivery orders on the real Directory / Discovery objects (virtual FIFO network, state caching)",
         "Every sequence of <=5 (thorough up to 7) discovery operations of 2 (3) agents on 1-2 computations, interleaved with every delivery order of the discovery messages, is executed on the real Directory, DirectoryComputation, Discovery and DiscoveryComputation objects; at every quiescent state each agent's view of every item it is still subscribed to must equal the directory's and its callback events must fold to that view.",
-        NETX_NOTE + " A new host registers a computation only once the former host's messages reached the directory (no version numbers in the protocol); illegal calls are not in the alphabet.", "DESIGN.md 3 C20")
+        NETX_NOTE + " A new host registers a computation only once the former host's messages reached the directory (no version numbers in the protocol) and an agent publishes a replica only of a computation whose current host it knows; illegal calls are not in the alphabet.", "DESIGN.md 3 C20")
     reg("C25", "netx", "model_checking", "explicit-state search of the real UCSReplication computations with real Discovery/Directory over a virtual FIFO network (all interleavings for small deployments, canonical schedules beyond; state caching)",
-        "For each small deployment (3-4 agents, 1-2 computations each, ample/tight capacities, routes, hosting costs, k=1..3) every agent's replicate(k) and all replication / discovery messages are explored in one process sharing class-level state; on every state the acceptance of a replica is checked against the capacity rule computed from the agent's own replica table, at quiescence termination, distinct non-owner hosts <= k, directory records and real holders are checked.",
+        "For each small deployment (3-4 agents, 1-2 computations each, ample/tight capacities, integer and decimal routes / hosting costs, k=1..3) every agent's replicate(k) and all replication / discovery messages are explored in one process sharing class-level state; on every state the acceptance of a replica is checked against the capacity rule computed from the agent's own replica table, at quiescence termination, distinct non-owner hosts <= k, directory records and real holders are checked; the state graph is kept and every state from which no end state is reachable is reported (livelock); departure runs (one agent leaves at any moment after the first replicate(k), all interleavings) check that the survivors still report done and end with live, distinct, recorded, real replica hosts.",
         NETX_NOTE + " UCSReplication sees a fake agent exposing name, agent_def and computations() only.", "DESIGN.md 3 C25")
